@@ -15,11 +15,13 @@ import (
 	"time"
 
 	"go.sia.tech/core/types"
+	"go.sia.tech/coreutils/chain"
 	"verif/harness/internal/chaingen"
 	"verif/harness/internal/hx"
 	"verif/harness/internal/mgrsim"
 	"verif/harness/internal/poolsim"
 	"verif/harness/internal/rng"
+	"verif/harness/internal/storeobs"
 )
 
 func main() { hx.Main("C05", run) }
@@ -33,6 +35,27 @@ type tracked struct {
 	t2    types.V2Transaction
 	abs   poolsim.ATx
 	since int
+}
+
+// byExpiryOrder re-runs the block submissions of a history on an observed store and asks the C02
+// judge whether the first thing that differs from a linear twin is the known expiry-order finding.
+func byExpiryOrder(t *chaingen.Tree, ops []mgrsim.Op) (yes bool) {
+	defer func() {
+		if recover() != nil {
+			yes = false
+		}
+	}()
+	nd, err := storeobs.NewNode(t, chain.NewMemDB(), nil)
+	if err != nil {
+		return false
+	}
+	for _, op := range ops {
+		if o := nd.Do(op); o.Panic {
+			return false
+		}
+	}
+	f, _ := storeobs.Judge(nd, storeobs.NewTwins(t))
+	return f != nil && f.Kind == storeobs.KindF8
 }
 
 // assemble builds a block from the lists by the rule of MineBlock with every transaction of
@@ -191,7 +214,16 @@ func runCase(cs poolsim.Case, coqWanted bool) (coqOut string, failOut *failure, 
 		}
 		// the manager's tip state is the generator's
 		if string(mgrsim.EncState(r.CM.TipState())) != string(mgrsim.EncState(tip.FullState)) {
-			report("c05-tip-state-differs", "TipState differs from the linear replay of the best chain")
+			// the known expiry-order finding of the store (C02, F8) shows here as well once a reorg reverted a
+			// block that resolved or re-windowed one of several v1 contracts sharing a window end: decided by
+			// re-running the block submissions of this history on an observed store under the C02 judge (the only
+			// served data differing from a linear twin are expiration lists, permuted as the exported diffs explain);
+			// any other difference keeps its kind
+			if byExpiryOrder(t, r.Ops) {
+				report("c05-tip-state-differs-by-expiry-order", "TipState differs from the linear replay of the best chain; the C02 judge attributes the difference to the expiration-list order (after "+what+")")
+			} else {
+				report("c05-tip-state-differs", "TipState differs from the linear replay of the best chain")
+			}
 			return
 		}
 		// 2. a block mined from the pool is accepted by a fresh linear node
